@@ -129,10 +129,16 @@ def job_ints(payload):
     out = {"ints": 0, "fmt": 0, "bad": []}
     for v, dom in cases:
         try:
-            r = d.run(lit(v, dom))
+            # the value arrives through the API's input stack (not through the lexer), is rendered, and the text read back
+            r = d.run("( )", inp="%s:%d:%s:0" % ("i" if v < 0 else "u", v, dom))
+            if r["st"] != "done" or len(r["res"]) != 1 or r["res"][0][0]["t"] != "c" or int(r["res"][0][0]["v"]) != v:
+                out["bad"].append(("integer-from-api-not-delivered", dict(value=v, domain=dom, got=str(r)[:300]))); continue
             c = r["res"][0][0]
             out["ints"] += 1
             R = c["f"]
+            rl = d.run(lit(v, dom))
+            if rl["st"] != "done" or len(rl["res"]) != 1 or rl["res"][0][0]["t"] != "c" or int(rl["res"][0][0]["v"]) != v:
+                out["bad"].append(("integer-literal-not-read-as-its-value", dict(value=v, domain=dom, literal=lit(v, dom), got=str(rl)[:300]))); continue
             r2 = d.run(R)
             if r2["st"] != "done" or len(r2["res"]) != 1 or r2["res"][0][0]["t"] != "c":
                 out["bad"].append(("integer-rendering-does-not-read-back", dict(value=v, domain=dom, rendering=R))); continue
@@ -143,8 +149,10 @@ def job_ints(payload):
                 out["bad"].append(("integer-rendering-reads-back-in-another-domain:%s:%s" % (dom, "zero" if v == 0 else "nonzero"),
                                    dict(value=v, domain=dom, rendering=R, got=c2["d"])))
             for direc, want_dom in (("%d", "dec"), ("%x", "hex"), ("%o", "oct"), ("%b", "bin")):
-                rf = d.run('%s "%s"' % (lit(v, dom), direc))
+                rf = d.run('"%s"' % direc, inp="%s:%d:%s:0" % ("i" if v < 0 else "u", v, dom))
                 out["fmt"] += 1
+                if rf["st"] != "done" or len(rf["res"]) != 1 or rf["res"][0][0]["t"] != "s":
+                    out["bad"].append(("directive-does-not-render", dict(value=v, directive=direc, got=str(rf)[:300]))); continue
                 s = bytes.fromhex(rf["res"][0][0]["v"]).decode("latin-1")
                 r3 = d.run(s)
                 if r3["st"] != "done" or len(r3["res"]) != 1 or r3["res"][0][0]["t"] != "c":
